@@ -44,20 +44,32 @@ pub struct BackoffCfg {
     pub step_ms: u64,
     pub max_attempts: u32,
     pub max_ms: Option<u64>,
+    /// order in which the three builder setters are called (0..=5): the configuration must not
+    /// depend on it
+    #[serde(default)]
+    pub setter_order: u8,
 }
 
 impl BackoffCfg {
     pub fn build(&self) -> BackoffStrategy {
-        let b = match self.strategy {
+        let mut b = match self.strategy {
             Strategy::Constant => BackoffStrategy::constant(),
             Strategy::Linear => BackoffStrategy::linear(),
             Strategy::Exponential(f) => BackoffStrategy::exponential(f),
         };
-        let b = b.with_max_attempts(self.max_attempts).with_step(Duration::from_millis(self.step_ms));
-        match self.max_ms {
-            Some(m) => b.with_max_duration(Duration::from_millis(m)),
-            None => b,
+        // 0 = attempts, 1 = step, 2 = cap
+        const ORDERS: [[u8; 3]; 6] = [[0, 1, 2], [0, 2, 1], [1, 0, 2], [1, 2, 0], [2, 0, 1], [2, 1, 0]];
+        for which in ORDERS[(self.setter_order % 6) as usize] {
+            b = match which {
+                0 => b.with_max_attempts(self.max_attempts),
+                1 => b.with_step(Duration::from_millis(self.step_ms)),
+                _ => match self.max_ms {
+                    Some(m) => b.with_max_duration(Duration::from_millis(m)),
+                    None => b,
+                },
+            };
         }
+        b
     }
     /// Reference law in u128 milliseconds with saturation (attempt numbered from 1).
     pub fn law_ms(&self, attempt: u32) -> u128 {
@@ -563,7 +575,7 @@ pub fn gen_backoff(rng: &mut Rng, wide: bool) -> BackoffCfg {
     let step_ms = if wide { *rng.pick(&[0u64, 1, 50, 700, 5_000, 1_000_000, 1_000_000_000_000]) } else { *rng.pick(&[1u64, 20, 100, 300, 700, 1500]) };
     let max_attempts = if wide { *rng.pick(&[0u32, 1, 2, 3, 5, 8, 21, 66, 130, 300]) } else { *rng.pick(&[0u32, 1, 2, 3, 4, 6]) };
     let max_ms = if rng.chance(1, 2) { Some(if wide { *rng.pick(&[0u64, 1, 500, 4_000, 60_000, 1_000_000_000_000_000_000]) } else { *rng.pick(&[500u64, 2_000, 4_000]) }) } else { None };
-    BackoffCfg { strategy, step_ms, max_attempts, max_ms }
+    BackoffCfg { strategy, step_ms, max_attempts, max_ms, setter_order: rng.below(6) as u8 }
 }
 
 /// The enumerated part of a C12 script: which stream kind is cut, by which class of fault, and how
